@@ -216,57 +216,65 @@ Definition highlight (hc : ascii) (sp_ : Span) : str :=
 Definition nonempty (o : option str) : option str :=
   match o with Some (c :: l) => Some (c :: l) | _ => None end.
 
+(** [min(len(line) - len(line.lstrip()) for line in all_lines)] *)
+Definition min_leading (lines : list str) : res Z :=
+  match map lstrip_len lines with
+  | [] => Raise "ValueError: min() arg is an empty sequence"
+  | n0 :: ns => Ok (Z.of_nat (fold_left Nat.min ns n0))
+  end.
+
+(** removal of excessive common indentation; the span moves with the text *)
+Definition trim (all_lines : list str) (span : Span) (lead : Z) : res (list str * Span) :=
+  if MAX_LEADING_WHITESPACE <? lead then
+    let remove := Z.min (Z.min (lead - OPTIMAL_LEADING_WHITESPACE) (l_col (s_start span)))
+                        (l_col (s_end span)) in
+    res_bind (span_shift_left span remove) (fun span' =>
+    Ok (map (fun line => py_from line remove) all_lines, span'))
+  else Ok (all_lines, span).
+
+(** rows for the first line of a multi-line span (with its banner and the ellipsis), the
+    last spanned line and the sub-span that covers it *)
+Definition body (hc : ascii) (span : Span) (span_lines : list str) : res (list Row * str * Span) :=
+  if is_multiline span then
+    match span_lines with
+    | first :: rest =>
+      match split_last rest with
+      | Some (middle, last) =>
+        res_bind (new_span (s_start span)
+                           (mkLoc (l_line (s_start span)) (Z.of_nat (length first)))) (fun first_span =>
+        res_bind (new_span (mkLoc (l_line (s_end span)) 0) (s_end span)) (fun last_span =>
+        Ok ([(Some (l_line (s_start span)), first); (None, highlight hc first_span)]
+              ++ (match middle with [] => [] | _ => [(None, s "...")] end),
+            last, last_span)))
+      | None => Raise "ValueError: not enough values to unpack"
+      end
+    | [] => Raise "ValueError: not enough values to unpack"
+    end
+  else
+    match span_lines with
+    | [last] => Ok ([], last, span)
+    | _ => Raise "ValueError: wrong number of values to unpack"
+    end.
+
+Definition label_rows (label : option str) (last_highlight : str) : list Row :=
+  match nonempty label with
+  | Some lbl =>
+    let '(f, r) := wrap lbl MAX_LABEL_LINE_LEN [sp] (spaces (length last_highlight + 1)) in
+    (None, last_highlight ++ f) :: map (fun l => (None, l)) r
+  | None => [(None, last_highlight)]
+  end.
+
 Definition render_snippet_rows (src : list str) (span : Span) (label : option str)
            (is_primary : bool) (prefix_lines : Z) : res (list Row) :=
   let hc := if is_primary then "^"%char else "-"%char in
   let prefix := Z.min prefix_lines (l_line (s_start span) - 1) in
   let all_lines := span_lines src span prefix in
-  match map lstrip_len all_lines with
-  | [] => Raise "ValueError: min() arg is an empty sequence"
-  | n0 :: ns =>
-    let lead := Z.of_nat (fold_left Nat.min ns n0) in
-    res_bind
-      (if MAX_LEADING_WHITESPACE <? lead then
-         let remove := Z.min (Z.min (lead - OPTIMAL_LEADING_WHITESPACE) (l_col (s_start span)))
-                             (l_col (s_end span)) in
-         res_bind (span_shift_left span remove) (fun span' =>
-         Ok (map (fun line => py_from line remove) all_lines, span'))
-       else Ok (all_lines, span))
-      (fun '(all_lines, span) =>
-       let pre_rows := number_from (l_line (s_start span) - prefix) (py_upto all_lines prefix) in
-       let span_lines := py_from all_lines prefix in
-       res_bind
-         (if is_multiline span then
-            match span_lines with
-            | first :: rest =>
-              match split_last rest with
-              | Some (middle, last) =>
-                res_bind (new_span (s_start span)
-                                   (mkLoc (l_line (s_start span)) (Z.of_nat (length first)))) (fun first_span =>
-                res_bind (new_span (mkLoc (l_line (s_end span)) 0) (s_end span)) (fun last_span =>
-                Ok ([(Some (l_line (s_start span)), first); (None, highlight hc first_span)]
-                      ++ (match middle with [] => [] | _ => [(None, s "...")] end),
-                    last, last_span)))
-              | None => Raise "ValueError: not enough values to unpack"
-              end
-            | [] => Raise "ValueError: not enough values to unpack"
-            end
-          else
-            match span_lines with
-            | [last] => Ok ([], last, span)
-            | _ => Raise "ValueError: wrong number of values to unpack"
-            end)
-         (fun '(rows, last, last_span) =>
-          let last_highlight := highlight hc last_span in
-          let label_rows :=
-            match nonempty label with
-            | Some lbl =>
-              let '(f, r) := wrap lbl MAX_LABEL_LINE_LEN [sp] (spaces (length last_highlight + 1)) in
-              (None, last_highlight ++ f) :: map (fun l => (None, l)) r
-            | None => [(None, last_highlight)]
-            end in
-          Ok ([(None, [])] ++ pre_rows ++ rows ++ [(Some (l_line (s_end span)), last)] ++ label_rows)))
-  end.
+  res_bind (min_leading all_lines) (fun lead =>
+  res_bind (trim all_lines span lead) (fun '(all_lines, span) =>
+  let pre_rows := number_from (l_line (s_start span) - prefix) (py_upto all_lines prefix) in
+  res_bind (body hc span (py_from all_lines prefix)) (fun '(rows, last, last_span) =>
+  Ok ([(None, [])] ++ pre_rows ++ rows ++ [(Some (l_line (s_end span)), last)]
+        ++ label_rows label (highlight hc last_span))))).
 
 Definition render_snippet (src : list str) (span : Span) (label : option str) (max_lineno : Z)
            (is_primary : bool) (prefix_lines : Z) : res (list str) :=
